@@ -149,6 +149,9 @@ func TestRaceValue(t *testing.T) {
 func TestRaceCollection(t *testing.T) {
 	rapid.Check(t, func(t *rapid.T) {
 		c := resource.NewCollection(resource.WithInitialRecord("a", fm(0)))
+		// a second collection of the same process (models hold several; devices hold several models): nothing is shared
+		// between two collections
+		c2 := resource.NewCollection()
 		ctx, cancel := context.WithCancel(context.Background())
 		defer cancel()
 		ids := []string{"a", "b", "c"}
@@ -157,6 +160,14 @@ func TestRaceCollection(t *testing.T) {
 			func(g, i int) { _, _ = c.Update(ids[i%3], fm(int32(g*100+i)), resource.WithCreateIfAbsent()) },
 			func(g, i int) {
 				_, _ = c.Add("", fm(int32(i)), resource.WithGenIDIfAbsent(), resource.WithIDCallback(func(id string) { _ = len(id) }), resource.WithCreatedCallback(func() {}))
+			},
+			func(g, i int) {
+				_, _ = c2.Add("", fm(int32(i)), resource.WithGenIDIfAbsent())
+				if i%4 == 0 {
+					for _, m := range c2.List() {
+						touch(m)
+					}
+				}
 			},
 			func(g, i int) { _, _ = c.Delete(ids[i%3], resource.WithAllowMissing(true)) },
 			func(g, i int) {
